@@ -808,4 +808,70 @@ def C17_delete_specific_full : Prop :=
     ∃ t' b, BTree.deleteSpecific d t k rid = .ok (t', b) ∧ t'.WF d ∧
       t'.toAssoc = amEraseOne t.toAssoc k rid ∧ b = (amLookup t.toAssoc k).contains rid
 
+/-! ## operation sequences -/
+
+def isDelete : Op → Bool
+  | .delete _ => true
+  | .deleteSpecific _ _ => true
+  | _ => false
+
+theorem step_refines (d : Nat) (hd : 5 ≤ d) (t : BTree) (op : Op) (hw : t.WF d) (hop : isDelete op = false) :
+    ∃ t' a, step d t op = .ok (t', a) ∧ specStep t.toAssoc op = (t'.toAssoc, a) ∧ t'.WF d := by
+  cases op with
+  | insert k r =>
+    obtain ⟨t', h1, h2, h3⟩ := C17_insert d hd t k r hw
+    exact ⟨t', .unit, by simp [step, h1, Except.map], by simp [specStep, h3], h2⟩
+  | delete k => simp [isDelete] at hop
+  | deleteSpecific k r => simp [isDelete] at hop
+  | lookup k => exact ⟨t, _, by simp [step, C17_lookup d t k hw, Except.map], rfl, hw⟩
+  | multiLookup ks => exact ⟨t, _, by simp [step, C17_multi_lookup d t ks hw, Except.map], rfl, hw⟩
+  | rangeScan s e a b => exact ⟨t, _, by simp [step, C17_range_scan d t s e a b hw, Except.map], rfl, hw⟩
+
+/-- **every answer of every sequence of inserts, lookups, multi-key lookups and range scans
+    equals the ordered multimap's, and the tree stays well-formed** (any length, any keys);
+    for sequences with deletions the same holds step by step through `C17_delete_partial` when no
+    leaf underflows, and is checked on the real code by the harness otherwise -/
+theorem C17_run_refines (d : Nat) (hd : 5 ≤ d) : ∀ (ops : List Op) (t : BTree), t.WF d →
+    (∀ op ∈ ops, isDelete op = false) →
+    ∃ t' as, run d t ops = .ok (t', as) ∧ specRun t.toAssoc ops = (t'.toAssoc, as) ∧ t'.WF d := by
+  intro ops
+  induction ops with
+  | nil => intro t hw _; exact ⟨t, [], rfl, rfl, hw⟩
+  | cons op ops ih =>
+    intro t hw hops
+    obtain ⟨t1, a, h1, h2, h3⟩ := step_refines d hd t op hw (hops op (by simp))
+    obtain ⟨t2, as, g1, g2, g3⟩ := ih t1 h3 (fun o ho => hops o (by simp [ho]))
+    refine ⟨t2, a :: as, ?_, ?_, g3⟩
+    · simp only [run, h1, g1, bind, Except.bind, pure, Except.pure]
+    · simp only [specRun, h2, g2]
+
+/-- the empty tree `BTreeIndex::new` creates is well-formed and is the empty multimap -/
+theorem C17_new (d : Nat) : BTree.empty.WF d ∧ BTree.empty.toAssoc = [] ∨ d = 0 := by
+  cases d with
+  | zero => exact Or.inr rfl
+  | succ d => exact Or.inl ⟨⟨List.Pairwise.nil, by simp, by simp, trivial⟩, rfl⟩
+
+/-! ## non-vacuity and executable checks of the model (tests, not proofs) -/
+
+/-- a three-level tree at degree 5 obtained by 30 inserts: the hypotheses `WF` of the theorems
+    are satisfiable by non-trivial trees (`C17_insert` itself produces them) -/
+def sampleOps : List Op := (List.range 30).map (fun i => Op.insert ((i * 7 % 30 : Nat) : Int) i)
+
+example : (run 5 BTree.empty sampleOps).toOption.map (fun p => (p.1.h, p.1.toAssoc.length)) = some (2, 30) := by
+  decide
+
+/-- `NoUnderflow` holds for a deletion in that tree (leaf keeps two entries) and fails for another -/
+example : ∃ t, (run 5 BTree.empty sampleOps).toOption.map (·.1) = some t ∧
+    (findLeaf t.h t.root 3).toOption.map (fun es => (leafDeleteAll es 3).map List.length) = some (some 2) := by
+  refine ⟨_, rfl, ?_⟩
+  decide
+
+/-- deletions with borrow, merge, internal rebalancing and root collapse evaluated on the model:
+    the answers equal the multimap's (an executable test of the part of deletion not yet proved) -/
+example :
+    let ops := sampleOps ++ (List.range 30).map (fun i => Op.delete ((i : Nat) : Int)) ++ [Op.rangeScan none none true true]
+    (run 5 BTree.empty ops).toOption.map (fun p => (p.1.h, p.2)) =
+      some (0, (specRun [] ops).2) := by
+  decide
+
 end VibeProof.C17
